@@ -43,12 +43,26 @@ func Oracle(tr *udpx.Trace) (string, []*engine.Finding) {
 	var repCP, repPT, repTP, repPC = map[key]int64{}, map[key]int64{}, map[key]int64{}, map[key]int64{}
 	assocID := map[int]string{} // client -> attributed key id of the live association
 	obs := ""
+	openAssocs := 0 // associations reported added and not yet reported removed
 	for i, st := range tr.Steps {
 		if st.Skipped {
 			continue
 		}
 		op := st.Op
 		var fc, ft, adds []world.UDPEvent
+		for _, m := range st.Metrics {
+			switch m.Kind {
+			case "add":
+				openAssocs++
+			case "remove":
+				openAssocs--
+			}
+		}
+		if op.K == "A" && op.D > 5*time.Minute && openAssocs != 0 {
+			// nothing was sent for longer than the NAT timeout: every association has ended, and its
+			// removal is reported when it ends, not when the listener closes
+			add("removal-report-late", "step %d %s: %d association(s) reported added are still not reported removed after %v without traffic (NAT timeout 5m)", i, op, openAssocs, op.D)
+		}
 		for _, m := range st.Metrics {
 			switch m.Kind {
 			case "fromClient":
